@@ -595,9 +595,15 @@ def c07_allocated_again(params, tier):
     its last release, by the deletion of its mailbox (close without release), by both sides leaving one after the
     other, by expiry - and is gone from the list; the next allocate gets exactly that name again."""
     if params is None:
-        return [{"how": h, "early": e, "usage": u, "listing": l}
-                for h in ("release", "close", "two-release", "two-close", "release-close", "expiry", "restart-release")
-                for e in (0, 1) for u in (0, 1) for l in ((1, 0) if u == 0 else (1,))]
+        out = [{"how": h, "early": e, "usage": u, "listing": l}
+               for h in ("release", "close", "two-release", "two-close", "release-close", "expiry", "restart-release")
+               for e in (0, 1) for u in (0, 1) for l in ((1, 0) if u == 0 else (1,))]
+        # another spelling of the same number ("05", " 5", "+5", "5 ") is a different nameplate: held, it does not
+        # keep "5" from being allocated again; retired, it does not free the "5" somebody still holds
+        out += [{"how": h, "early": 1, "usage": 0, "listing": l, "pad": pd}
+                for h in ("release", "close", "pad-release", "pad-close") for pd in ("0%d", " %d", "+%d", "%d ")
+                for l in ((1, 0) if pd == "0%d" else (1,))]
+        return out
     p = params
     b = HB()
     holders = {}
@@ -617,7 +623,16 @@ def c07_allocated_again(params, tier):
     L = b.conn("app", "s4")
     b.send(L, type="list")
     how = p["how"]
-    if how == "release":
+    pad = p.get("pad")
+    if pad:
+        P = b.conn("app", "s6")
+        b.send(P, type="claim", nameplate=pad % v)
+        b.send(L, type="list")
+    if how == "pad-release":
+        b.send(P, type="release")
+    elif how == "pad-close":
+        b.send(P, type="close", mailbox=claimed(P))
+    elif how == "release":
         b.send(H, type="release")
     elif how == "close":
         b.send(H, type="close", mailbox=claimed(H), mood="happy")
